@@ -46,6 +46,8 @@ def _case(draw, tier):
         "max_iter": draw(st.sampled_from([6, 12, 25])),
         "entry_pick": draw(st.integers(0, 7)),
         "sched": draw(st.lists(st.integers(0, 7), max_size=40)),
+        "explicit": draw(st.sampled_from([None, None, "data", "data+gate"])),
+        "cached_gates": prob(draw, 0.35),
     }
 
 
@@ -323,7 +325,9 @@ def check_case(case, ev):
                 ) and all(any(s in ran for s in produced.get(w, [])) for w in t.get("wait_for", []))
                 selected_final = any(gs["name"] in final and _names(final[gs["name"]], t["name"]) for gs in ctrl)
                 all_closed = all(not gs.get("default_open", True) for gs in ctrl)
-                if selected_final and avail and t["name"] not in ran:
+                # (a gate that also WAITS for a signal cannot simply decide again when one of its data inputs changes after it
+                # ran: its decision is void from then on while it is owed no new run - its targets stay shut, by C17's rule)
+                if selected_final and avail and t["name"] not in ran and not any(gs.get("wait_for") for gs in ctrl):
                     raise Violation("c03.selected_not_run", f"[{tag}] {t['name']} is selected by a final decision {J(final)} and its inputs exist, but it never ran")
                 if all_closed and avail and not selected_final and not any(
                     _names(decision_of(gs, a), t["name"]) for gs in ctrl for a in ctx.calls(ref.fid(gs))
@@ -335,6 +339,64 @@ def check_case(case, ev):
                     for o in t.get("outs", []):
                         if o in out.values and o not in vals:
                             raise Violation("c03.output_of_unselected", f"[{tag}] output {o} of never-executed node {t['name']} appears in the result")
+    # ---- the gates are cacheable and the program runs twice on one runner that carries a cache: the second run is routed by
+    # restored decisions (also None / END, also the same arguments met again inside one run) and must take the same course
+    if case.get("cached_gates") and not case["nest"]:
+        from hypergraph import AsyncRunner, SyncRunner
+        from hypergraph.cache import InMemoryCache
+
+        from ..observe import call_multiset, run_async
+
+        cspec = {**inner_spec, "nodes": [({**n, "cache": True} if n["k"] in ("ifelse", "route") else n) for n in nodes]}
+        funcs = {ref.fid(n) for n in nodes if n["k"] == "func"}
+        ctx_u = Ctx(compact=True)
+        try:
+            g_u = make_graph(ctx_u, inner_spec, "sync")
+        except Exception:  # noqa: BLE001
+            g_u = None
+        if g_u is not None:
+            vals_u, kw_u = _values_for(g_u, case)
+            base = run_sync(g_u, vals_u, max_iterations=case["max_iter"], error_handling="continue", **kw_u)
+            want = (base.status, base.values, call_multiset([c_ for c_ in ctx_u.log if c_[0] in funcs]))
+            for rk in ("sync", "async"):
+                ctx_c = Ctx(compact=True)
+                g_c = make_graph(ctx_c, cspec, "sync")
+                runner_c = SyncRunner(cache=InMemoryCache()) if rk == "sync" else AsyncRunner(cache=InMemoryCache())
+                for rep in (0, 1):
+                    ctx_c.reset()
+                    oc = (run_sync if rk == "sync" else run_async)(g_c, vals_u, runner=runner_c, max_iterations=case["max_iter"], error_handling="continue", **kw_u)
+                    got = (oc.status, oc.values, call_multiset([c_ for c_ in ctx_c.log if c_[0] in funcs]))
+                    if base.status != "raised" and got != want:
+                        raise Violation("c03.cached_gates_route_differently", f"[{rk}, cacheable gates, run {rep} ({'warm' if rep else 'cold'})] {oc.brief()} with function calls {sorted(map(repr, got[2].items()))[:10]}; "
+                                        f"without a cache: {base.brief()} with {sorted(map(repr, want[2].items()))[:10]}", warm=bool(rep))
+            labels.add("cacheable_gates_two_runs")
+    # ---- the same program with its topology DECLARED (edges=[...]: every data edge that inference finds, optionally the
+    # gate -> target pairs too): same outcome, same invocations, and the same routing discipline
+    outs_all = [o for n in nodes for o in n.get("outs", []) + n.get("emit", [])]
+    if case.get("explicit") and not case["nest"] and len(outs_all) == len(set(outs_all)):
+        ctx_i = Ctx(compact=True)
+        g_i = make_graph(ctx_i, inner_spec, "sync")
+        vals_i, kw_i = _values_for(g_i, case)
+        base = run_sync(g_i, vals_i, max_iterations=case["max_iter"], error_handling="continue", **kw_i)
+        ctx_e = Ctx(compact=True)
+        try:
+            g_e = make_graph(ctx_e, {**inner_spec, "explicit": case["explicit"]}, "sync")
+        except Exception as e:  # noqa: BLE001 - declared topologies are validated by other rules; nothing to compare then
+            ev.count("explicit_edges_rejected:" + type(e).__name__)
+            g_e = None
+        if g_e is not None and base.status != "raised":
+            rec = Recorder()
+            oe = run_sync(g_e, vals_i, max_iterations=case["max_iter"], error_handling="continue", event_processors=[rec], **kw_i)
+            from ..observe import call_multiset
+
+            if oe.status == "raised" and type(oe.error).__name__ in ("MissingInputError", "ValueError"):
+                ev.count("explicit_edges_other_input_contract")  # declared topologies classify inputs by their own rules
+            else:
+                if (oe.status, oe.values, call_multiset(ctx_e.log)) != (base.status, base.values, call_multiset(ctx_i.log)):
+                    raise Violation("c03.explicit_edges_differ", f"[edges={case['explicit']}] with the inferred topology declared by hand the run gives {oe.brief()} / calls {sorted(map(repr, ctx_e.log))[:8]}; "
+                                    f"inferred: {base.brief()} / calls {sorted(map(repr, ctx_i.log))[:8]}", gate_edges=case["explicit"] == "data+gate")
+                monitor(rec.events, nodes, ctx_e, f"sync edges={case['explicit']}", None, stats, async_steps=False)
+                labels.add("explicit_edges:" + case["explicit"])
     nontrivial = excluded_with_inputs > 0 or stats["shared_disagree"] > 0
     if excluded_with_inputs:
         labels.add("excluded_with_inputs")
